@@ -271,13 +271,19 @@ def explore(n, funcs, index, enums, subj_len=3):
             except BadRe as e:
                 res["violations"].append({"what": "pattern %r translated to the invalid BRE %r (%s)" % (p, regex, e), "pattern": p})
                 continue
+            first_bad, explained = None, True
             for sub in subj:
                 res["comparisons"] += 1
                 got = atoms is not None and bre_full_match(atoms, sub)
                 want = fnmatch_ref(p, sub)
-                if got != want:
-                    res["violations"].append({"what": "pattern %r (BRE %r) on %r: %s, fnmatch says %s" % (p, regex, sub, got, want), "pattern": p, "subject": sub})
-                    break
+                if got != want and first_bad is None:
+                    first_bad = (sub, got, want)
+                if got != fnmatch_ref(p, sub, bracket_backslash="literal"):
+                    explained = False
+            if first_bad:
+                sub, got, want = first_bad
+                cls = "a backslash inside a bracket expression is taken literally" if (explained and "\\" in p and "[" in p) else "other"
+                res["violations"].append({"what": "pattern %r (BRE %r) on %r: %s, fnmatch says %s" % (p, regex, sub, got, want), "pattern": p, "subject": sub, "class": cls})
             if len(res["samples"]) < 4 and regex and "[" in p:
                 res["samples"].append({"pattern": p, "bre": regex})
     res["wall_s"] = round(time.time() - t0, 2)
